@@ -697,7 +697,19 @@ int tokens_get(AsmContext *asm_context, char *token, int len)
 
     if (ret == 0 && asm_context->parsing_ifdef == 0)
     {
-      snprintf(token, len, "%d", address);
+      // A label is an address (unsigned, like $); a .set symbol keeps the
+      // sign it was given (.set x = -1).
+      Symbols::Entry *entry = asm_context->symbols.find(token);
+
+      if (entry != NULL && entry->flag_rw == false)
+      {
+        snprintf(token, len, "%u", address);
+      }
+        else
+      {
+        snprintf(token, len, "%d", address);
+      }
+
       token_type = TOKEN_NUMBER;
     }
       else
